@@ -153,13 +153,20 @@ StartToks(sch) ==
   IF sch = "lastkey" THEN {NoTok, Garbage, IdxTok(1)} \cup { KeyTok(k) : k \in MCKeys }
   ELSE {NoTok, Garbage, KeyTok(<<1>>)} \cup { IdxTok(i) : i \in (0 - 1)..(NMax + 1) }
 
-MCInit == c \in { [st |-> "pick", sch |-> "lastkey", keep |-> FALSE, items |-> Sorted(S), size |-> 0,
+MCInit == c \in { [st |-> "pick", sch |-> "lastkey", keep |-> FALSE, items |-> Sorted(S), size |-> 0, sizes |-> <<0>>,
                    start |-> NoTok, tok |-> NoTok, pages |-> <<>>, totals |-> <<>>, writes |-> 0]
                   : S \in { T \in SUBSET MCKeys : Cardinality(T) <= NMax } }
+(* The page size of a chain is a schedule: call i asks for sizes[i], going   *)
+(* round when the schedule is shorter than the chain (a client may change   *)
+(* the page size from call to call: grow, shrink, 0 = default, larger than  *)
+(* the collection).  c.size is the first entry; a constant walk has a       *)
+(* schedule of length one.  The token alone says where the next page        *)
+(* starts, whatever the size of this or of earlier calls.                   *)
+SizeOfCall(sizes, i) == sizes[((i - 1) % Len(sizes)) + 1]
 \* Walk: one request with the token of the previous answer
 Walk ==
   /\ c.st = "paging"
-  /\ LET p == Page(c.sch, c.items, c.tok, c.size, c.keep) IN
+  /\ LET p == Page(c.sch, c.items, c.tok, SizeOfCall(c.sizes, Len(c.pages) + 1), c.keep) IN
      c' = IF p.status = "Panic" THEN [c EXCEPT !.st = "panic"]
           ELSE IF p.status # "OK" THEN [c EXCEPT !.st = "error"]
           ELSE [c EXCEPT !.pages = Append(@, p.items), !.totals = Append(@, p.total), !.tok = p.next,
@@ -171,7 +178,7 @@ Walk ==
 MCWrites == IF Scope >= 2 THEN 2 ELSE 1
 MCOps == { [kind |-> k, key |-> key, am |-> am] : k \in WriteKinds, key \in MCKeys, am \in BOOLEAN }
 WriteThenWalkAgain ==
-  /\ c.st = "done" /\ c.start = NoTok /\ c.size = 0 /\ c.writes < MCWrites /\ Len(c.items) <= 4
+  /\ c.st = "done" /\ c.start = NoTok /\ c.sizes = <<0>> /\ c.writes < MCWrites /\ Len(c.items) <= 4
   /\ \E op \in MCOps :
        /\ (op.am => op.kind = "delete")
        /\ c' = [c EXCEPT !.items = Sorted(Apply(Range(c.items), op)), !.writes = @ + 1, !.st = "paging",
@@ -182,7 +189,15 @@ MCNext ==
      /\ \E sch \in {"lastkey", "index"}, keep \in BOOLEAN, size \in MCSizes :
           \E t \in StartToks(sch) :
             /\ sch = "index" => keep
-            /\ c' = [c EXCEPT !.st = "paging", !.sch = sch, !.keep = keep, !.size = size, !.start = t, !.tok = t]
+            /\ c' = [c EXCEPT !.st = "paging", !.sch = sch, !.keep = keep, !.size = size, !.sizes = <<size>>,
+                               !.start = t, !.tok = t]
+  \* a walk from the first page whose page size changes from call to call (every pair of
+  \* non-negative sizes, alternating; listings of at most 5 items to bound the state space)
+  \/ /\ c.st = "pick" /\ Len(c.items) <= 5
+     /\ \E sch \in {"lastkey", "index"}, keep \in BOOLEAN, s1 \in 0..(Max + 1), s2 \in 0..(Max + 1) :
+          /\ sch = "index" => keep
+          /\ s1 # s2
+          /\ c' = [c EXCEPT !.st = "paging", !.sch = sch, !.keep = keep, !.size = s1, !.sizes = <<s1, s2>>]
   \/ Walk
 
 \* what a walk from the start token has to deliver
@@ -198,7 +213,7 @@ NeverPanics   == c.st # "panic"
 \* a state that is still paging always has a successor, so a bound on the
 \* number of pages is termination of the token chain
 Terminates    == Len(c.pages) <= Len(c.items) + 2
-PageSizes     == \A i \in 1..Len(c.pages) : Allowed(c.size, Len(c.pages[i]))
+PageSizes     == \A i \in 1..Len(c.pages) : Allowed(SizeOfCall(c.sizes, i), Len(c.pages[i]))
 TotalSize     == \A i \in 1..Len(c.totals) : c.totals[i] = Len(c.items)
 NoDuplicate   == LET f == Flat(c.pages) IN Cardinality(Range(f)) = Len(f)
 InOrder       == LET f == Flat(c.pages) IN Len(f) <= Len(Wanted) /\ f = SubSeq(Wanted, 1, Len(f))   \* a prefix of what is wanted
@@ -242,13 +257,26 @@ RepsFor(n) == IF Scope < 2 THEN 1 ELSE IF n \in BigN THEN 2 ELSE 3      \* id se
 Schemes == {"lastkey", "index"}
 
 GenWalk(sch, n, size, rep) ==
-  [st |-> "paging", k |-> "walk", sch |-> sch, keep |-> TRUE, n |-> n, size |-> size, rep |-> rep, variant |-> 0,
+  [st |-> "paging", k |-> "walk", sch |-> sch, keep |-> TRUE, n |-> n, size |-> size, sizes |-> <<size>>,
+   rep |-> rep, variant |-> 0,
    items |-> Ranks(n), start |-> NoTok, tok |-> NoTok, pages |-> <<>>, totals |-> <<>>, ids |-> {}, segs |-> <<>>]
+
+(* chains whose page size changes from call to call: growing, shrinking,   *)
+(* 0 = default in the middle, sizes at / just below / above the collection *)
+(* size, sizes above the cap; plus random schedules                        *)
+GenSched(sch, n, sizes, rep) == [GenWalk(sch, n, sizes[1], rep) EXCEPT !.k = "sched", !.sizes = sizes]
+SchedPool(n) == {0, 1, 2, 3, 7, 50, 1000, 5000, n, n + 1} \cup (IF n > 1 THEN {n - 1} ELSE {})
+RandSched(n, z) == [i \in 1..RandomElement(2..4) |-> RandomElement(SchedPool(n))]
+Schedules(n) ==
+  IF n \in BigN THEN { <<50, 5000>>, <<1000, 1>>, <<7, 1000>>, <<50, 0, n>> }
+  ELSE { <<50, 7, 1>>, <<1, 2, 3, 7>>, <<3, 0>>, <<2, 1000>>, <<1, 5000>>, <<7, 50>>, <<2, 1>>, <<1, 0>>,
+         <<1, n>>, <<1, n + 1>>, <<2, n>> } \cup (IF n > 1 THEN { <<1, n - 1>>, <<n - 1, n>> } ELSE {})
+         \cup { RandSched(n, z) : z \in 1..(IF Scope >= 2 THEN 6 ELSE 2) }
 \* corrupted / foreign tokens: variant 1..9 is mapped by the harness to a token class of
 \* the server's scheme (PagingTrace!Malformed says which of them the property settles)
 TokSizes == {0, 1, 2, 7, 50, 1000}
 GenTok(sch, n, variant, rep) ==
-  [st |-> "emit", k |-> "tok", sch |-> sch, keep |-> TRUE, n |-> n, size |-> RandomElement(TokSizes), rep |-> rep,
+  [st |-> "emit", k |-> "tok", sch |-> sch, keep |-> TRUE, n |-> n, size |-> RandomElement(TokSizes), sizes |-> <<0>>, rep |-> rep,
    variant |-> variant, items |-> <<>>, start |-> NoTok, tok |-> NoTok, pages |-> <<>>, totals |-> <<>>,
    ids |-> {}, segs |-> <<>>]
 
@@ -271,7 +299,7 @@ GenHist(sch, n, rep) ==
       K1   == History(K0, ops1)
       ops2 == RandOps(K1, RandomElement(0..2), rep + 7)
       K2   == History(K1, ops2)
-  IN [st |-> "emit", k |-> "hist", sch |-> sch, keep |-> TRUE, n |-> n, size |-> 0, rep |-> rep, variant |-> 0,
+  IN [st |-> "emit", k |-> "hist", sch |-> sch, keep |-> TRUE, n |-> n, size |-> 0, sizes |-> <<0>>, rep |-> rep, variant |-> 0,
       items |-> <<>>, start |-> NoTok, tok |-> NoTok, pages |-> <<>>, totals |-> <<>>, ids |-> K0,
       segs |-> << [ops |-> ops1, size |-> RandomElement(HistSizes), listing |-> K1],
                   [ops |-> ops2, size |-> RandomElement(HistSizes), listing |-> K2] >>]
@@ -284,11 +312,13 @@ GenInit == c \in UNION { { GenWalk(sch, g[1], g[2], r) : r \in 1..RepsFor(g[1]) 
                  \cup UNION { { GenWalk(sch, n, RandSize(n + r), 10 + r) : r \in 1..RepsFor(n) } : sch \in Schemes, n \in GridN \cup BigN }
                  \cup UNION { { GenTok(sch, n, v, r) : r \in 1..RepsFor(n) } : sch \in Schemes, n \in TokN, v \in 1..9 }
                  \cup { GenHist(sch, n, r) : sch \in Schemes, n \in HistN, r \in 1..HistReps }
+                 \cup UNION { { GenSched(sch, n, sz, 1) : sz \in Schedules(n) } : sch \in Schemes, n \in GridN \cup BigN }
 GenNext == Walk
 EmitCase ==
   c.st \in {"done", "error", "emit"} =>
     PrintT("CASE " \o ToJson(
-      [k |-> c.k, sch |-> c.sch, n |-> c.n, size |-> c.size, rep |-> c.rep, variant |-> c.variant,
+      [k |-> c.k, sch |-> c.sch, n |-> c.n, size |-> IF c.k = "tok" THEN c.size ELSE c.sizes[1],
+       sizes |-> IF c.k = "tok" THEN <<c.size>> ELSE c.sizes, rep |-> c.rep, variant |-> c.variant,
        ids |-> IF c.k = "hist" THEN c.ids ELSE Ids(c.n), segs |-> c.segs,
        expect |-> IF c.st = "error" THEN "error" ELSE IF c.st = "done" THEN "pages" ELSE "unsettled",
        lens |-> [i \in 1..Len(c.pages) |-> Len(c.pages[i])]]))
